@@ -152,11 +152,19 @@ func v35PredictBody(frames []v35Frame, tail string) v35Pred {
 			p.DataFrames++
 		case f.Type == 0x1:
 			p.BodyMax = p.BodyMin
+			ref := qpackref.Decode(f.Payload)
 			if f.Cut {
-				p.Outcome = v35TrailersCut
+				// the octets present may already be wrong before the cut is reached
+				switch {
+				case ref.NegativeBase || len(ref.MayReject) > 0:
+					p.Outcome = v35Unspecified
+				case ref.Accepted() || ref.Reject == qpackref.RejTruncated || ref.Reject == qpackref.RejStringOversized:
+					p.Outcome = v35TrailersCut
+				default:
+					p.Outcome = v35TrailersBad
+				}
 				return p
 			}
-			ref := qpackref.Decode(f.Payload)
 			switch {
 			case !ref.Accepted():
 				p.Outcome = v35TrailersBad
@@ -1063,7 +1071,12 @@ func v35PredictControl(b []byte, fin bool) (class string, skipped int, why strin
 		pos += n
 		_, n = v35Varint(f.Payload[pos:])
 		if n == 0 {
-			return crossing(1, "a setting value")
+			// the value starts right after the frame: its length is in the first octet beyond
+			need := 1
+			if beyond > 0 {
+				need = 1 << (b[len(b)-beyond] >> 6)
+			}
+			return crossing(need, "a setting value")
 		}
 		if n < 0 {
 			return crossing(1<<(f.Payload[pos]>>6)-(len(f.Payload)-pos), "a setting value")
@@ -1253,12 +1266,14 @@ func v35CheckUni(r *verifrt.R, uc *v35UniCase, o *v35UniObs, viol func(key, f st
 		rerr = ret[0]
 	}
 	failed := (returned && rerr != nil) || len(o.aborts) > 0 || closed
+	// the error the failure was reported with: what the connection was aborted with, else what
+	// the handler returned (handleUnidirectionalStream turns a returned io.EOF into an abort)
 	var first error
 	switch {
-	case returned && rerr != nil:
-		first = rerr
 	case len(o.aborts) > 0:
 		first = o.aborts[0]
+	case returned && rerr != nil:
+		first = rerr
 	}
 	r.Event("control_result_"+class+"_"+v35Code(first), 1)
 	switch class {
@@ -1364,7 +1379,7 @@ func TestVerif_C35(t *testing.T) {
 						r.Event("peer_saw_"+v35Code(o.peerErr), 1)
 					}
 					mu.Lock()
-					if samples < 4 && c.Index == 0 && len(msg.Wire) < 80 && nt {
+					if samples < 5 && c.Index == 0 && len(msg.Wire) < 100 && nt && len(o.read.body) > 0 {
 						samples++
 						r.Sample(map[string]any{"role": role, "stream_octets": fmt.Sprintf("%x", msg.Wire), "frames": v35Describe(msg.Wire), "body_read": fmt.Sprintf("%x", o.read.body), "read_ended_with": v35Code(o.read.err)})
 					}
@@ -1387,7 +1402,35 @@ func TestVerif_C35(t *testing.T) {
 		vqsBubbleTrouble(c, inner, outer)
 	}
 
-	r.CasesParallel("messages", r.N(60, 900), 8, func(c *verifrt.Case) {
+	// the smallest streams of each shape of interest, both roles (fixed: no PRNG involved)
+	r.Cases("minimal-shapes", 1, func(c *verifrt.Case) {
+		var list []*v35MsgCase
+		for _, role := range []string{"server", "client"} {
+			hdr := v35ReqFields
+			if role == "client" {
+				hdr = v35RespFields
+			}
+			h := v35AppendFrame(nil, nil, 0x1, uint64(len(hdr)), hdr)
+			add := func(kind string, wire []byte) {
+				list = append(list, &v35MsgCase{Role: role, Kind: "minimal:" + kind, Wire: append([]byte{}, wire...)})
+			}
+			add("headers-only", h)
+			add("empty-headers-frame", []byte{0x01, 0x00})
+			add("headers+data", append(append([]byte{}, h...), 0x00, 0x02, 'h', 'i'))
+			add("headers+empty-trailers-frame", append(append([]byte{}, h...), 0x01, 0x00))
+			add("headers+data+type-octet-only", append(append([]byte{}, h...), 0x00, 0x02, 'h', 'i', 0x00))
+			add("headers+data-cut", append(append([]byte{}, h...), 0x00, 0x05, 'h', 'i'))
+			add("grease+headers+data", append(append([]byte{0x21, 0x00}, h...), 0x00, 0x02, 'h', 'i'))
+			add("headers+grease+data+grease", append(append([]byte{}, h...), 0x21, 0x01, 0xff, 0x00, 0x02, 'h', 'i', 0x40, 0x40, 0x00))
+			add("headers+data+trailers", append(append(append([]byte{}, h...), 0x00, 0x02, 'h', 'i', 0x01, byte(len(v35TrailerFields))), v35TrailerFields...))
+		}
+		runBatch(c, len(list), func(k int) (*v35MsgCase, *v35UniCase) {
+			r.Event("minimal_shape_cases", 1)
+			return list[k], nil
+		})
+	})
+
+	r.CasesParallel("messages", r.N(120, 900), 8, func(c *verifrt.Case) {
 		runBatch(c, batch, func(k int) (*v35MsgCase, *v35UniCase) {
 			role := "server"
 			if c.Rng.IntN(2) == 0 {
@@ -1397,7 +1440,7 @@ func TestVerif_C35(t *testing.T) {
 		})
 	})
 
-	r.CasesParallel("uni-streams", r.N(20, 300), 8, func(c *verifrt.Case) {
+	r.CasesParallel("uni-streams", r.N(40, 300), 8, func(c *verifrt.Case) {
 		runBatch(c, batch, func(k int) (*v35MsgCase, *v35UniCase) {
 			role := "server"
 			if c.Rng.IntN(2) == 0 {
@@ -1408,7 +1451,7 @@ func TestVerif_C35(t *testing.T) {
 	})
 
 	// FIN at every offset of a few fixed message streams
-	r.CasesParallel("every-offset", r.N(4, 24), 8, func(c *verifrt.Case) {
+	r.CasesParallel("every-offset", r.N(6, 24), 8, func(c *verifrt.Case) {
 		role := []string{"server", "client"}[c.Index%2]
 		hdr := v35ReqFields
 		if role == "client" {
@@ -1434,20 +1477,22 @@ func TestVerif_C35(t *testing.T) {
 		})
 	})
 
-	r.Require("server_streams", int64(r.N(60, 900)*batch/4))
-	r.Require("client_streams", int64(r.N(60, 900)*batch/4))
-	r.Require("body_octets_checked", 100000)
-	r.Require("data_frames_delivered", 2000)
-	r.Require("unknown_frames_skipped", 1000)
+	vqsRaceFinish(r)
+	r.Require("server_streams", int64(r.N(120, 900)*batch/4))
+	r.Require("client_streams", int64(r.N(120, 900)*batch/4))
+	r.Require("body_octets_checked", 200000)
+	r.Require("data_frames_delivered", 1000)
+	r.Require("unknown_frames_skipped", 600)
 	r.Require("outcome_"+v35Eof, 200)
 	r.Require("outcome_"+v35FrameError, 200)
 	r.Require("outcome_"+v35Unexpected, 100)
 	r.Require("outcome_"+v35TrailersEof, 50)
-	r.Require("uni_streams", int64(r.N(20, 300)*batch*9/10))
+	r.Require("uni_streams", int64(r.N(40, 300)*batch*9/10))
 	r.Require("control_expect_"+v35CtlOpen, 50)
 	r.Require("control_expect_"+v35CtlFrameError, 10)
 	r.Require("control_expect_"+v35CtlCut, 30)
 	r.Require("every_offset_cases", 200)
+	r.Require("minimal_shape_cases", 18)
 }
 
 // v35Describe renders the walker's view of a message stream.
